@@ -718,6 +718,10 @@ ASMJIT_FAVOR_SPEED Error Assembler::_emit(InstId inst_id, const Operand_& o0, co
       goto EmitX86R;
 
     case InstDB::kEncodingX86Op_xAddr:
+      // Implicit operands only - the address register has the native size.
+      if (isign3 == 0)
+        goto EmitX86Op;
+
       if (ASMJIT_UNLIKELY(!o0.is_reg()))
         goto InvalidInstruction;
 
